@@ -50,7 +50,7 @@ structure St where
   lineNo : Nat := 0
   lastOp : String := ""
   /-- what the model expects for the pending `>` line: rendered string, or a checker for fixed lists -/
-  pending : Option (String × Option (String × FixedCands × FState × Layout)) := none
+  pending : Option (String × Option (String × Cfg × FState × Layout)) := none
   ops : Nat := 0
   cases : Nat := 0
   mismatches : Nat := 0
@@ -119,9 +119,12 @@ def renderFile (fs : FS) : String :=
   | some st => "file =" ++ renderStore st
 
 /-- canonical store: later duplicates of a key removed (our `ainsert` never creates them) -/
+def hasMissing (s : String) : Bool := (s.splitOn "\x01MISSING").length > 1
+
 def report (st : St) (msg : String) : IO St := do
   if st.shown < 200 then IO.println msg
-  return { st with mismatches := st.mismatches + 1, shown := st.shown + 1 }
+  return { st with mismatches := st.mismatches + 1, shown := st.shown + 1,
+                   missing := st.missing + (if hasMissing msg then 1 else 0) }
 
 def loadTsv (path : String) : IO (List (List String)) := do
   let txt ← IO.FS.readFile path
@@ -153,8 +156,9 @@ def handleExpect (st : St) (impl : String) : IO St := do
     if model == impl then return st
     -- fixed method with suggestions: the order inside equal ranks is implementation-defined
     match fixedInfo with
-    | some (cid, fc, fsState, layout) =>
+    | some (cid, fcfg, fsState, layout) =>
       let env := mkEnv st.t
+      let fc := fixedCands env fcfg fsState
       let mt := model.splitOn " "
       let it := impl.splitOn " "
       match parseF mt, parseF it with
@@ -188,8 +192,6 @@ def handleExpect (st : St) (impl : String) : IO St := do
       | _, _ => report st s!"MISMATCH case={st.caseName} line={st.lineNo} op=[{st.lastOp}] model=[{model}] impl=[{impl}]"
     | none => report st s!"MISMATCH case={st.caseName} line={st.lineNo} op=[{st.lastOp}] model=[{model}] impl=[{impl}]"
 
-def hasMissing (s : String) : Bool := (s.splitOn "\x01MISSING").length > 1
-
 def doOp (st : St) (cid : String) (ev : Event) (label : String) : IO St := do
   let st := bump { st with ops := st.ops + 1 } label
   match st.ctxs.get? cid with
@@ -204,15 +206,14 @@ def doOp (st : St) (cid : String) (ev : Event) (label : String) : IO St := do
       match out with
       | .sugg sg =>
         let r := renderSugg w.env sg c'.ongoing
-        let st := if hasMissing r then bump { st with missing := st.missing + 1 } "missing-table-entry" else st
         let st := match sg with
           | .single s _ => if s.isEmpty then bump st "out-empty" else bump st "out-single"
           | .full _ l _ _ => bump (bump st "out-full") (if l.length > 1 then "out-full-multi" else "out-full-one")
         let fixedInfo := match c'.m, ev with
           | .fixed l fsState, .key .. => if c'.cfg.fixedSuggestion then
-              (match sg with | .full .. => some (cid, fixedCands w.env c'.cfg fsState, fsState, l) | _ => none) else none
+              (match sg with | .full .. => some (cid, c'.cfg, fsState, l) | _ => none) else none
           | .fixed l fsState, .backspace _ => if c'.cfg.fixedSuggestion then
-              (match sg with | .full .. => some (cid, fixedCands w.env c'.cfg fsState, fsState, l) | _ => none) else none
+              (match sg with | .full .. => some (cid, c'.cfg, fsState, l) | _ => none) else none
           | _, _ => none
         return { st with pending := some (r, fixedInfo) }
       | .unit =>
